@@ -678,7 +678,14 @@ class Run:
                 # reference was last derived is history (children are not inherited); outside the statement
                 desc = (c[0] == "obj" and under(b.idstr, c[1]) and c[1] != b.idstr
                         and not (c[1].count(".") == b.idstr.count(".") + 1 and c[1].rsplit(".", 1)[1] in b.cells))
-                items.append((path, name, got, obs, ident, alt, desc, s, r, b, dr, tree_root(simpl, b), c[0] == "null"))
+                tr0 = tree_root(simpl, b)
+                # a target in ANOTHER subtree of the enclosing pair of spaces (a sibling of the definer, something
+                # below it): the sub space holds a null object when the counterpart did not exist yet at the time of
+                # the last derivation - history again, and outside the statement (it speaks of the defining space
+                # and its cells under static derivation)
+                cross = (c[0] == "obj" and got[0] == "null" and tr0 is not None and under(tr0[1], c[1])
+                         and not under(b.idstr, c[1]))
+                items.append((path, name, got, obs, ident, alt, desc or cross, s, r, b, dr, tr0, c[0] == "null"))
         if not items:
             self.last = {}
             return
@@ -998,12 +1005,38 @@ class Run:
                               "not the corresponding object of the dynamic tree" % (
                                   root, " (created before the last edit, still alive)" if again else "",
                                   dmode, ".".join([root] + rel), name, tpath, W.val_repr(got)), k)
+                    continue
             else:
+                want = T
                 if got is not T:
                     self.fail("in the ItemSpace of %s%s the %s reference %s.%s to %s (%s) denotes %s, not the original" % (
                         root, " (created before the last edit, still alive)" if again else "", dmode,
                         ".".join([root] + rel), name, tpath,
                         "absolute" if dmode == "absolute" else "outside the base's tree", W.val_repr(got)), k)
+                    continue
+            # the other views of the reference inside the dynamic space: the `refs` mapping, the namespace its
+            # formulas are bound to, a formula that reads the name
+            views = [("%s.refs[%r]", lambda: dyn.refs[name]),
+                     ("the namespace the formulas are bound to in %s, under %r,", lambda: dyn._impl.namespace.interfaces[name])]
+            if "get_" + name in dyn.cells:
+                views.append(("the formula get_%s of %%s, which returns what it reads under the name %%r," % name,
+                              lambda: dyn.cells["get_" + name]()))
+            for what, f in views:
+                self.stats["item_views_compared"] += 1
+                try:
+                    with quiet():
+                        v = f()
+                except Exception as e:
+                    self.fail("in the ItemSpace of %s %s raises %s although the dynamic space has the reference" % (
+                        root, what % (".".join([root + "[..]"] + rel), name), err_kind(e)), k)
+                    break
+                if isinstance(v, types.MethodType) and isinstance(v.__self__, mx.core.cells.CellsImpl):
+                    v = v.__self__.interface
+                if v is not want:
+                    self.fail("in the ItemSpace of %s %s shows %s but attribute access (and the statement) give %s" % (
+                        root, what % (".".join([root + "[..]"] + rel), name),
+                        W.val_repr(v) if isinstance(v, Interface) else repr(v), W.val_repr(want)), k)
+                    break
         if err is not None:
             keys = [v for v in recog.values()]
             if not keys:
@@ -1130,18 +1163,38 @@ def mk_spaces(ops, names, bases_last=None, created=None):
 RN = {"auto": "ra", "relative": "rl", "absolute": "rb"}
 
 
-def grid_case(modes, placement, holder, ddepth, sdepth, deriver):
-    """the operations of one configuration, or None when the combination makes no sense"""
+SIB_PLACEMENTS = ["sib", "sibcells", "sibgrand", "sibgrcells"]
+
+
+def grid_case(modes, placement, holder, ddepth, sdepth, deriver, sib=None):
+    """the operations of one configuration, or None when the combination makes no sense.
+    sib = "before" / "after": the definer has a SECOND child space Sib (cells ss, child Sg with cells gg) created
+    before / after the child Ch that may hold the reference - the target placements sib, sibcells, sibgrand,
+    sibgrcells lie across the children, in both creation orders"""
     ops = []
     created = set()
     dn = chain(ddepth, "Def", "Pa")
     D = ".".join(dn)
     mk_spaces(ops, dn, created=created)
     ops.append(["cells", D, "cc", 1])
+    if (placement in SIB_PLACEMENTS) != (sib is not None):
+        return None
+
+    def mk_sib(parent, bases=None):
+        ops.append(["new_space", parent, "Sib", [bases + ".Sib"] if bases else []])
+        if not bases:
+            ops.append(["cells", parent + ".Sib", "ss", 6])
+        ops.append(["new_space", parent + ".Sib", "Sg", [bases + ".Sib.Sg"] if bases else []])
+        if not bases:
+            ops.append(["cells", parent + ".Sib.Sg", "gg", 7])
+    if sib == "before":
+        mk_sib(D)
     ops.append(["new_space", D, "Ch", []])
     ops.append(["cells", D + ".Ch", "dd", 2])
     ops.append(["new_space", D + ".Ch", "Gr", []])
     ops.append(["cells", D + ".Ch.Gr", "ee", 3])
+    if sib == "after":
+        mk_sib(D)
     ops.append(["new_space", "-", "Out", []])
     ops.append(["cells", "Out", "oo", 4])
     if ddepth > 1:
@@ -1152,10 +1205,14 @@ def grid_case(modes, placement, holder, ddepth, sdepth, deriver):
         "chcells": ("obj", D + ".Ch.dd"), "grand": ("obj", D + ".Ch.Gr"), "grcells": ("obj", D + ".Ch.Gr.ee"),
         "up": ("obj", ".".join(dn[:-1]) + ".pp") if ddepth > 1 else None,
         "out": ("obj", "Out"), "outcells": ("obj", "Out.oo"), "plain": 7,
+        "sib": ("obj", D + ".Sib"), "sibcells": ("obj", D + ".Sib.ss"), "sibgrand": ("obj", D + ".Sib.Sg"),
+        "sibgrcells": ("obj", D + ".Sib.Sg.gg"),
     }[placement]
     if target is None:
         return None
-    iscells = placement in ("cells", "chcells", "grcells", "up", "outcells")
+    if sib is not None and deriver not in DYNAMIC_DERIVERS:
+        return None         # (across children nothing is said about static derivation: children are not inherited)
+    iscells = placement in ("cells", "chcells", "grcells", "up", "outcells", "sibcells", "sibgrcells")
     sn = chain(sdepth, "Sub", "Qa")
     S = ".".join(sn)
 
@@ -1228,8 +1285,12 @@ def grid_case(modes, placement, holder, ddepth, sdepth, deriver):
         define()
         mk_spaces(ops, sn[:-1], created=created)
         ops.append(["new_space", ".".join(sn[:-1]) or "-", "Sub", [D]])
+        if sib == "before":
+            mk_sib(S, D)
         ops.append(["new_space", S, "Ch", [D + ".Ch"]])
         ops.append(["new_space", S + ".Ch", "Gr", [D + ".Ch.Gr"]])
+        if sib == "after":
+            mk_sib(S, D)
         ops.append(["params", S])
         ops.append(["item", S])
     elif deriver == "itemderivedchild":
@@ -1240,8 +1301,12 @@ def grid_case(modes, placement, holder, ddepth, sdepth, deriver):
         define()
         mk_spaces(ops, sn[:-1], created=created)
         ops.append(["new_space", ".".join(sn[:-1]) or "-", "Sub", [D]])
+        if sib == "before":
+            mk_sib(S, D)
         ops.append(["new_space", S, "Ch", [D + ".Ch"]])
         ops.append(["new_space", S + ".Ch", "Gr", [D + ".Ch.Gr"]])
+        if sib == "after":
+            mk_sib(S, D)
         ops.append(["params", S + ".Ch"])
         ops.append(["item", S + ".Ch"])
     elif deriver == "itemchange":
@@ -1276,6 +1341,17 @@ def grid(maxdepth):
                             ops = grid_case(modes, placement, holder, ddepth, sdepth, deriver)
                             if ops is not None:
                                 yield ("+".join(modes), placement, holder, ddepth, sdepth, deriver), ops
+    # references ACROSS the child spaces of the definer: the target lies in (is) a sibling of the child that holds
+    # the reference, the sibling created before / after that child (ItemSpace derivers only)
+    for deriver in DYNAMIC_DERIVERS:
+        for order in ("before", "after"):
+            for ddepth in range(1, maxdepth):
+                for holder in HOLDERS:
+                    for placement in SIB_PLACEMENTS:
+                        for modes in (("auto", "absolute"), ("relative",)):
+                            ops = grid_case(modes, placement, holder, ddepth, 1, deriver, sib=order)
+                            if ops is not None:
+                                yield ("+".join(modes), placement + "-" + order, holder, ddepth, 1, deriver), ops
 
 
 # ----------------------------------------------------------------------------- scenarios (edit histories)
@@ -1359,6 +1435,7 @@ def scenarios():
         ["del_ref", "Btwo", "rr"], ["set_ref", "Sub", "rs", ("obj", "Sub"), "auto"], ["del_ref", "Sub", "rs"],
         ["roundtrip"]]))
     S += new_ref_family()
+    S += cross_child_family()
     return S
 
 
@@ -1389,6 +1466,36 @@ def new_ref_family():
                             ["set_ref", "Bone", "rx", t1, new_mode], ["evalrefs"], ["item", "Sub"],
                             ["del_ref", "Bone", "rx"], ["evalrefs"], ["item", "Sub"]]
                     fam.append(("new-ref-earlier-base/%s-over-%s/%s/%s" % (new_mode, old_mode, tk, shape), ops))
+    return fam
+
+
+def cross_child_family():
+    """References ACROSS the child spaces of a parametrised space, under edits.  S has the children C (with a child K)
+    and D (with cells foo and a child E with cells baz); a reference held by C or by C.K points at the sibling D, at
+    its cells, at its descendant E, at E's cells - with D created before or after C (the ItemSpace builds its
+    children in creation order, so one of the two orders is a FORWARD reference), in every mode.  The ItemSpace is
+    built, rebuilt after a formula change in the target, after a new cells in S, and after write/read; every view of
+    the reference inside the ItemSpace is compared with what the mode says each time."""
+    fam = []
+    targets = {"space": "S.D", "cells": "S.D.foo", "descendant": "S.D.E", "descendant-cells": "S.D.E.baz"}
+    for order in ("target-first", "holder-first"):
+        for mode in MODES:
+            for tk, tpath in targets.items():
+                for holder in ("S.C", "S.C.K"):
+                    mk_d = [["new_space", "S", "D", []], ["cells", "S.D", "foo", 1], ["new_space", "S.D", "E", []],
+                            ["cells", "S.D.E", "baz", 2]]
+                    mk_c = [["new_space", "S", "C", []], ["cells", "S.C", "bar", 3], ["new_space", "S.C", "K", []],
+                            ["cells", "S.C.K", "kk", 4]]
+                    ops = [["new_space", "-", "S", []], ["cells", "S", "top", 0]]
+                    ops += (mk_d + mk_c) if order == "target-first" else (mk_c + mk_d)
+                    ops += [["set_ref", holder, "rx", ("obj", tpath), mode], ["getcells", holder, "get_rx", "rx"]]
+                    if tk.endswith("cells"):
+                        ops += [["usecells", holder, "use_rx", "rx"]]
+                    ops += [["params", "S"], ["item", "S"], ["evalrefs"],
+                            ["set_src", "S.D", "foo", 5], ["item", "S"],
+                            ["cells", "S", "late", 6], ["item", "S"],
+                            ["roundtrip"], ["item", "S"], ["evalrefs"]]
+                    fam.append(("cross-child/%s/%s/%s/%s" % (order, mode, tk, holder), ops))
     return fam
 
 
@@ -1535,8 +1642,13 @@ def gen_next(rng, live, ops):
             nm = rng.choice(free)
         q = rng.random()
         inside = [o for o in objs if under(path, o)]
+        # elsewhere in the tree the holder sits in: a space above it, a sibling (created before or after it), the
+        # sibling's cells and descendants - a reference across the children of one space
+        across = [o for o in objs if under(path.split(".")[0], o) and not under(path, o)] if "." in path else []
         if q < 0.55 and inside:
             tgt = ("obj", rng.choice(inside))
+        elif q < 0.72 and across:
+            tgt = ("obj", rng.choice(across))
         elif q < 0.9:
             tgt = ("obj", rng.choice(objs))
         else:
